@@ -1,99 +1,122 @@
 -------------------------------- MODULE AmSim --------------------------------
 (* The simulation kernel (docs/simulator.rst; property C08) as a state machine whose actions     *)
 (* are the kernel's critical sections:                                                           *)
-(*   TbStep      the testbench executes one operation (testbenches only run while the design      *)
-(*               has converged): set / get / tick (with sampling) / delay / read the time         *)
+(*   TbStep      the first runnable testbench (in the order they were added) executes one         *)
+(*               operation - testbenches only run while the design has converged:                 *)
+(*               set / get / tick (with sampling) / delay / read the time                         *)
 (*   AdvanceTime the timeline moves to the earliest deadline (clock toggle or delay expiry)       *)
 (*   RunProc(p)  ONE ready process runs: it reads current values and queues changes               *)
 (*               - enabled for ANY ready process, so TLC explores every scheduling order           *)
 (*   Commit      queued changes become current, waiters are woken (processes sensitive to a       *)
 (*               changed signal; clocked logic and tick() waiters on the active edge, the latter  *)
 (*               sampling values before any register updates); repeat until nothing is ready      *)
-(* The design is a fixed small topology whose process *functions* range over all truth tables:    *)
-(*   x = F1(a, b) (comb)   y = F2(x, b) (comb)   r <= F3(y, a) at posedge clk   clk: generator     *)
+(* The design is a fixed small topology whose process *functions* range over truth tables:         *)
+(*   x = F1(a, b), y = F2(x, b) (comb);  r <= F3(y, q), q <= F4(r, a) at posedge clk (two          *)
+(*   registers feeding each other, both ready at the same edge);  clk: generator                   *)
 (* chosen in Init, so one TLC run covers every design of that shape.                              *)
 EXTENDS Integers, Sequences, FiniteSets, TLC
 
-CONSTANTS Scripts,       \* set of testbench scripts (sequences of operations)
+CONSTANTS ScriptSets,    \* set of tuples of testbench scripts (one script per testbench, in the order added)
           Fns, SyncFns,  \* sets of truth tables (0..15) the combinational / clocked process functions range over
           Period, Phase, \* clock generator: first toggle at Phase, then every Period \div 2 (femtoseconds)
-          InitVals,      \* set of initial values of register r
+          InitVals,      \* set of initial values of the registers
           Mutant         \* "" | "read_pending": processes read queued instead of current values
+                         \*    | "reverse_tb": testbenches run in reverse order of addition
 
 Sigs == {"a", "b", "x", "y", "r", "q", "clk"}
 Procs == {"P1", "P2", "P3", "P4", "CLK"}
 Out == [P1 |-> "x", P2 |-> "y", P3 |-> "r", P4 |-> "q", CLK |-> "clk"]
-(* two registers feeding each other (r <= F3(y, q), q <= F4(r, a)): both are ready at the same edge *)
 Ins == [P1 |-> <<"a", "b">>, P2 |-> <<"x", "b">>, P3 |-> <<"y", "q">>, P4 |-> <<"r", "a">>, CLK |-> <<"clk", "clk">>]
 Half == Period \div 2
 Never == 1000000000
 
-VARIABLES fn, script, curr, nxt, ready, todo, expect, phase, pc, obs, now, clkT, wait, deadline, sampled, woken
-vars == <<fn, script, curr, nxt, ready, todo, expect, phase, pc, obs, now, clkT, wait, deadline, sampled, woken>>
+VARIABLES fn, scripts, curr, nxt, ready, todo, expect, phase, pc, obs, now, clkT, wait, deadline, sampled, woken
+vars == <<fn, scripts, curr, nxt, ready, todo, expect, phase, pc, obs, now, clkT, wait, deadline, sampled, woken>>
 
+TBs == 1..Len(scripts)
+(* derived state observable by testbenches: "rq" is ONE two-bit register whose bit 0 is driven by the fragment   *)
+(* of r and bit 1 by the fragment of q (same next-state functions); "mem" is a memory row with two write ports  *)
+(* in two clock domains whose edges coincide, each writing one granule with the same data: both always hold    *)
+(* r + 2 * q, whatever the order in which the two ready processes ran                                           *)
+Val(s) == IF s \in {"rq", "mem"} THEN curr["r"] + 2 * curr["q"] ELSE curr[s]
 TT(t, i, j) == (t \div (2 ^ (i + 2 * j))) % 2            \* truth table t applied to (i, j)
 Fun(p, vals) == IF p = "CLK" THEN 1 - vals["clk"]
                 ELSE TT(fn[p], vals[Ins[p][1]], vals[Ins[p][2]])
 (* the design is initially consistent: combinational outputs hold the function of the initial inputs *)
-InitCurr(f, r0) ==
+InitCurr(f) ==
     LET x0 == TT(f["P1"], 0, 0)
         y0 == TT(f["P2"], x0, 0) IN
-    [a |-> 0, b |-> 0, x |-> x0, y |-> y0, r |-> r0, q |-> f["Q0"], clk |-> 0]
+    [a |-> 0, b |-> 0, x |-> x0, y |-> y0, r |-> f["R0"], q |-> f["Q0"], clk |-> 0]
 
 Init ==
     /\ \E f \in [{"P1", "P2"} -> Fns], g \in [{"P3", "P4"} -> SyncFns], r0 \in InitVals, q0 \in InitVals :
           fn = [P1 |-> f["P1"], P2 |-> f["P2"], P3 |-> g["P3"], P4 |-> g["P4"], R0 |-> r0, Q0 |-> q0]
-    /\ script \in Scripts
-    /\ curr = InitCurr(fn, fn["R0"])
+    /\ scripts \in ScriptSets
+    /\ curr = InitCurr(fn)
     /\ nxt = curr
     /\ ready = {} /\ todo = {} /\ expect = curr
-    /\ phase = "tb" /\ pc = 1 /\ obs = <<>> /\ now = 0 /\ clkT = Phase
-    /\ wait = "none" /\ deadline = Never /\ sampled = curr /\ woken = FALSE
+    /\ phase = "tb" /\ pc = [i \in TBs |-> 1] /\ obs = <<>> /\ now = 0 /\ clkT = Phase
+    /\ wait = [i \in TBs |-> "none"] /\ deadline = [i \in TBs |-> Never]
+    /\ sampled = curr /\ woken = [i \in TBs |-> FALSE]
 
-(* ------------------------------- testbench ------------------------------- *)
-Op == script[pc]
+(* ------------------------------- testbenches ------------------------------- *)
+Runnable(i) == wait[i] = "ticked" \/ (wait[i] = "none" /\ pc[i] <= Len(scripts[i]))
+AnyRunnable == \E i \in TBs : Runnable(i)
+(* testbenches always run in the order in which they were added *)
+NextTb == IF Mutant = "reverse_tb"
+          THEN CHOOSE i \in TBs : Runnable(i) /\ \A j \in TBs : Runnable(j) => j <= i
+          ELSE CHOOSE i \in TBs : Runnable(i) /\ \A j \in TBs : Runnable(j) => i <= j
+
 TbStep ==
-    /\ phase = "tb" /\ pc <= Len(script)
-    /\ pc' = pc + 1
-    /\ CASE Op[1] = "set" ->          \* the write returns only after all consequences have settled
-              /\ nxt' = [curr EXCEPT ![Op[2]] = Op[3]]
-              /\ expect' = nxt'
-              /\ phase' = "commit" /\ wait' = "set"
-              /\ UNCHANGED <<obs, deadline>>
-         [] Op[1] = "get" ->
-              /\ obs' = Append(obs, <<"get", Op[2], curr[Op[2]]>>)
-              /\ UNCHANGED <<nxt, phase, wait, deadline, expect>>
-         [] Op[1] = "time" ->
-              /\ obs' = Append(obs, <<"time", now>>)
-              /\ UNCHANGED <<nxt, phase, wait, deadline, expect>>
-         [] Op[1] = "tick" ->         \* resumes after the registers have updated; sample = values before the edge
-              /\ wait' = "tick" /\ phase' = "time"
-              /\ UNCHANGED <<nxt, obs, deadline, expect>>
-         [] Op[1] = "delay" ->
-              /\ wait' = "delay" /\ deadline' = now + Op[2] /\ phase' = "time"
-              /\ UNCHANGED <<nxt, obs, expect>>
-    /\ UNCHANGED <<fn, script, curr, ready, todo, now, clkT, sampled, woken>>
+    /\ phase = "tb" /\ AnyRunnable
+    /\ LET i == NextTb
+           op == IF wait[i] = "ticked" THEN <<"resume">> ELSE scripts[i][pc[i]] IN
+       /\ pc' = IF wait[i] = "ticked" THEN pc ELSE [pc EXCEPT ![i] = @ + 1]
+       /\ CASE op[1] = "resume" ->       \* the tick() this testbench waited for has happened: it receives the sample
+                 /\ obs' = Append(obs, <<i, "tick", now, sampled["y"], sampled["r"], sampled["q"]>>)
+                 /\ wait' = [wait EXCEPT ![i] = "none"]
+                 /\ UNCHANGED <<nxt, phase, deadline, expect>>
+            [] op[1] = "set" ->          \* the write returns only after all consequences have settled
+                 /\ nxt' = [curr EXCEPT ![op[2]] = op[3]]
+                 /\ expect' = nxt'
+                 /\ phase' = "commit" /\ wait' = [wait EXCEPT ![i] = "set"]
+                 /\ UNCHANGED <<obs, deadline>>
+            [] op[1] = "get" ->
+                 /\ obs' = Append(obs, <<i, "get", op[2], Val(op[2])>>)
+                 /\ UNCHANGED <<nxt, phase, wait, deadline, expect>>
+            [] op[1] = "time" ->
+                 /\ obs' = Append(obs, <<i, "time", now>>)
+                 /\ UNCHANGED <<nxt, phase, wait, deadline, expect>>
+            [] op[1] = "tick" ->         \* resumes after the registers have updated; sample = values before the edge
+                 /\ wait' = [wait EXCEPT ![i] = "tick"]
+                 /\ UNCHANGED <<nxt, obs, deadline, expect, phase>>
+            [] op[1] = "delay" ->
+                 /\ wait' = [wait EXCEPT ![i] = "delay"] /\ deadline' = [deadline EXCEPT ![i] = now + op[2]]
+                 /\ UNCHANGED <<nxt, obs, expect, phase>>
+    /\ UNCHANGED <<fn, scripts, curr, ready, todo, now, clkT, sampled, woken>>
 
-TbDone ==
-    /\ phase = "tb" /\ pc = Len(script) + 1
-    /\ phase' = "done"
-    /\ PrintT(<<"DONE", fn, script, obs>>)       \* one line per (design, script): the observations every schedule yields
-    /\ UNCHANGED <<fn, script, curr, nxt, ready, todo, expect, pc, obs, now, clkT, wait, deadline, sampled, woken>>
+(* no testbench can run: either all scripts are finished, or time must pass *)
+TbIdle ==
+    /\ phase = "tb" /\ ~AnyRunnable
+    /\ IF \A i \in TBs : pc[i] = Len(scripts[i]) + 1 /\ wait[i] = "none"
+       THEN phase' = "done" /\ PrintT(<<"DONE", fn, scripts, obs>>)   \* the observations every schedule yields
+       ELSE phase' = "time"
+    /\ UNCHANGED <<fn, scripts, curr, nxt, ready, todo, expect, pc, obs, now, clkT, wait, deadline, sampled, woken>>
 
 (* -------------------------------- timeline -------------------------------- *)
-Earliest == IF clkT <= deadline THEN clkT ELSE deadline
+MinDeadline == LET S == {deadline[i] : i \in TBs} IN CHOOSE d \in S : \A e \in S : d <= e
+Earliest == IF clkT <= MinDeadline THEN clkT ELSE MinDeadline
 AdvanceTime ==
     /\ phase = "time"
     /\ now' = Earliest
-    /\ LET clkFires == clkT = Earliest
-           dlFires == deadline = Earliest IN
+    /\ LET clkFires == clkT = Earliest IN
        /\ ready' = IF clkFires THEN {"CLK"} ELSE {}
        /\ clkT' = IF clkFires THEN clkT + Half ELSE clkT
-       /\ woken' = (dlFires /\ wait = "delay")
-       /\ deadline' = IF dlFires THEN Never ELSE deadline
+       /\ woken' = [i \in TBs |-> wait[i] = "delay" /\ deadline[i] = Earliest]
+       /\ deadline' = [i \in TBs |-> IF deadline[i] = Earliest THEN Never ELSE deadline[i]]
        /\ todo' = ready' /\ expect' = [curr EXCEPT !["clk"] = IF clkFires THEN 1 - curr["clk"] ELSE curr["clk"]]
        /\ phase' = IF ready' = {} THEN "converged" ELSE "eval"
-    /\ UNCHANGED <<fn, script, curr, nxt, pc, obs, wait, sampled>>
+    /\ UNCHANGED <<fn, scripts, curr, nxt, pc, obs, wait, sampled>>
 
 (* ------------------------------- delta cycle ------------------------------- *)
 RunProc(p) ==
@@ -101,10 +124,10 @@ RunProc(p) ==
     /\ nxt' = [nxt EXCEPT ![Out[p]] = Fun(p, IF Mutant = "read_pending" THEN nxt ELSE curr)]
     /\ todo' = todo \ {p}
     /\ phase' = IF todo' = {} THEN "commit" ELSE "eval"
-    /\ UNCHANGED <<fn, script, curr, ready, expect, pc, obs, now, clkT, wait, deadline, sampled, woken>>
+    /\ UNCHANGED <<fn, scripts, curr, ready, expect, pc, obs, now, clkT, wait, deadline, sampled, woken>>
 
 Changed == {s \in Sigs : nxt[s] # curr[s]}
-Sensitive(p) == IF p \in {"P3", "P4"} THEN ("clk" \in Changed /\ nxt["clk"] = 1)       \* clocked logic: active edge only
+Sensitive(p) == IF p \in {"P3", "P4"} THEN ("clk" \in Changed /\ nxt["clk"] = 1)  \* clocked logic: active edge only
                 ELSE IF p = "CLK" THEN FALSE
                 ELSE \E i \in 1..2 : Ins[p][i] \in Changed
 Commit ==
@@ -112,23 +135,24 @@ Commit ==
     /\ curr' = nxt
     /\ ready' = {p \in Procs : Sensitive(p)}
     /\ LET edge == "clk" \in Changed /\ nxt["clk"] = 1 IN
-       /\ sampled' = IF edge /\ wait = "tick" THEN nxt ELSE sampled      \* before any register update
-       /\ woken' = (woken \/ (edge /\ wait = "tick"))
+       /\ sampled' = IF edge THEN nxt ELSE sampled               \* before any register update
+       /\ woken' = [i \in TBs |-> woken[i] \/ (edge /\ wait[i] = "tick")]
     /\ todo' = ready'
     /\ expect' = [s \in Sigs |-> IF \E p \in ready' : Out[p] = s
                                  THEN Fun(CHOOSE p \in ready' : Out[p] = s, nxt) ELSE nxt[s]]
     /\ phase' = IF ready' = {} THEN "converged" ELSE "eval"
-    /\ UNCHANGED <<fn, script, nxt, pc, obs, now, clkT, wait, deadline>>
+    /\ UNCHANGED <<fn, scripts, nxt, pc, obs, now, clkT, wait, deadline>>
 
-Converged ==           \* nothing is ready: wake the testbench if its wait is over, otherwise let time pass
+Converged ==           \* nothing is ready: wake the testbenches whose wait is over
     /\ phase = "converged"
-    /\ IF wait = "set" \/ woken
-       THEN /\ phase' = "tb" /\ wait' = "none" /\ woken' = FALSE
-            /\ obs' = IF wait = "tick" THEN Append(obs, <<"tick", now, sampled["y"], sampled["r"], sampled["q"]>>) ELSE obs
-       ELSE /\ phase' = "time" /\ UNCHANGED <<wait, woken, obs>>
-    /\ UNCHANGED <<fn, script, curr, nxt, ready, todo, expect, pc, now, clkT, deadline, sampled>>
+    /\ phase' = "tb"
+    /\ wait' = [i \in TBs |-> IF wait[i] = "set" THEN "none"
+                              ELSE IF woken[i] /\ wait[i] = "tick" THEN "ticked"
+                              ELSE IF woken[i] THEN "none" ELSE wait[i]]
+    /\ woken' = [i \in TBs |-> FALSE]
+    /\ UNCHANGED <<fn, scripts, curr, nxt, ready, todo, expect, pc, obs, now, clkT, deadline, sampled>>
 
-Next == TbStep \/ TbDone \/ AdvanceTime \/ (\E p \in Procs : RunProc(p)) \/ Commit \/ Converged
+Next == TbStep \/ TbIdle \/ AdvanceTime \/ (\E p \in Procs : RunProc(p)) \/ Commit \/ Converged
 Spec == Init /\ [][Next]_vars
 
 (* -------------------------------- properties -------------------------------- *)
@@ -142,6 +166,8 @@ SetReturnsSettled == phase = "tb" =>
 NoTimeTravel == [][now' >= now]_vars
 (* the k-th toggle of the clock happens at Phase + k * Half *)
 ClockTimes == (clkT - Phase) % Half = 0
-DelayExact == \A i \in 1..Len(obs) : obs[i][1] = "time" => obs[i][2] >= 0
+(* observations of one instant by different testbenches appear in the order the testbenches were added *)
+TbOrder == \A k \in 1..Len(obs), l \in 1..Len(obs) :
+    (k < l /\ obs[k][2] = "tick" /\ obs[l][2] = "tick" /\ obs[k][3] = obs[l][3]) => obs[k][1] < obs[l][1]
 Done == phase = "done"
 =============================================================================
